@@ -48,10 +48,12 @@ def gen_config(rng, hint=None):
         if local:
             c.update(min_retarget_interval=pick(rng, [0, 50, 220, 13]), fixed_retarget_t=pick(rng, [0, 0, 10, 100]), max_targets=pick(rng, [None, 1, 2]))
         if bw is not None and kind == "rydberg" and rng.random() < 0.5:
+            if rng.random() < 0.4:
+                c["max_abs_detuning"] = pick(rng, [12.0, 11.0, 7.0])      # below some of the EOM's off-detuning options
             c["eom"] = dict(mod_bandwidth=pick(rng, [bw, 2 * bw, 30.0 if bw <= 30 else bw]), custom_buffer_time=pick(rng, [None, None, 240, 100]),
                             multiple_beam_control=pick(rng, [True, False]), beams=pick(rng, [1, 2]))
         return c
-    cfg = dict(channels={}, max_sequence_duration=pick(rng, [None, None, None, 3000, 1500, 700]), n_atoms=pick(rng, [2, 3, 4]),
+    cfg = dict(channels={}, max_sequence_duration=pick(rng, [None, None, None, 3000, 1500, 700]), n_atoms=pick(rng, [2, 3, 4]), reusable=rng.random() < 0.25,
                dmm=pick(rng, [None, None, dict(bottom_detuning=pick(rng, [None, -20.0, -100.0]), total_bottom_detuning=pick(rng, [None, -200.0]),
                                                clock_period=pick(rng, [1, 4]), min_duration=pick(rng, [1, 16]), mod_bandwidth=pick(rng, [None, 8.0]))]))
     names = pick(rng, [["ryd_glob"], ["ryd_glob", "ram_loc"], ["ryd_glob", "ryd_loc"], ["ryd_glob", "ram_loc", "ryd_loc"], ["ryd_glob", "ryd_glob2"], ["ram_glob", "ram_loc"]])
@@ -94,7 +96,7 @@ def build_device(cfg):
         dmms = (DMM(bottom_detuning=d["bottom_detuning"], total_bottom_detuning=d["total_bottom_detuning"], clock_period=d["clock_period"],
                     min_duration=d["min_duration"], mod_bandwidth=d["mod_bandwidth"]),)
     return VirtualDevice(name="gen", dimensions=2, rydberg_level=61, channel_ids=tuple(chs), channel_objects=tuple(chs.values()),
-                         dmm_objects=dmms, supports_slm_mask=bool(dmms), max_sequence_duration=cfg["max_sequence_duration"], reusable_channels=False)
+                         dmm_objects=dmms, supports_slm_mask=bool(dmms), max_sequence_duration=cfg["max_sequence_duration"], reusable_channels=bool(cfg.get("reusable", False)))
 
 
 def make_pulse(spec):
@@ -147,6 +149,13 @@ def gen_history(rng, cfg, length):
     if cfg.get("dmm") and rng.random() < 0.7:
         ops.append(("dmm", {q: round(rng.random(), 2) for q in qids}))
         declared.append("dmm_0")
+        if cfg.get("reusable") and rng.random() < 0.7:
+            # the same DMM configured a second time with another map (allowed when channels are reusable): declared name dmm_0_1
+            w2 = {q: pick(rng, [0.0, 0.1, 1.0, 0.5]) for q in qids}
+            if not any(w2.values()):
+                w2[qids[0]] = 1.0
+            ops.append(("dmm", w2))
+            declared.append("dmm_0_1")
     for step in range(length):
         if late and (rng.random() < 0.2 or step == length - 2):
             op = late.pop()
@@ -155,7 +164,7 @@ def gen_history(rng, cfg, length):
             continue
         ch = pick(rng, declared)
         r = rng.random()
-        if ch == "dmm_0":
+        if ch.startswith("dmm_"):
             if r < 0.7:
                 ops.append(("add_dmm", ("detconst", pick(rng, [16, 100, 200, 52]), pick(rng, [-1.0, -10.0, -30.0, 0.0, 5.0])), ch, pick(rng, ["no-delay", "min-delay"])))
             else:
@@ -172,7 +181,7 @@ def gen_history(rng, cfg, length):
             ops.append(("target", rng.sample(qids, min(k, len(qids))), ch))
         elif r < 0.76:
             chs = rng.sample(declared, min(len(declared), pick(rng, [2, 2, 3])))
-            ops.append(("align", [c for c in chs if c != "dmm_0"] or [ch], pick(rng, [True, False])))
+            ops.append(("align", [c for c in chs if not c.startswith("dmm_")] or [ch], pick(rng, [True, False])))
         elif r < 0.84:
             ops.append(("phase_shift", pick(rng, [0.5, math.pi, -1.0, 7.0]), rng.sample(qids, pick(rng, [1, 2])), "ground-rydberg" if cfg["channels"][ch]["kind"] == "rydberg" else "digital"))
         elif r < 0.92 and has_eom:
@@ -207,6 +216,26 @@ def scripted_histories(rng):
                   ("enable_eom", "ryd_glob", 5.0, 0.0, -20.0, True), ("eom_pulse", "ryd_glob", 100, 1.0, "min-delay", True), ("delay", 40, "ryd_glob", False),
                   ("modify_eom", "ryd_glob", 8.0, 4.0, 15.0, True), ("eom_pulse", "ryd_glob", 52, 0.0, "no-delay", True), ("disable_eom", "ryd_glob", True),
                   ("add", ("const", 100, 1.0, 0.0, 1.0, 0), "ryd_glob", "min-delay")]
+    # EOM mode enabled on a local channel right after a retarget (the start buffer is still due), with default and custom buffer time
+    for buf in (None, 240):
+        c = eom_cfg(buf)
+        c["channels"]["ryd_loc"] = dict(c["channels"]["ryd_glob"], local=True, min_retarget_interval=220, fixed_retarget_t=0, max_targets=1)
+        yield c, [("declare", "ryd_loc", "ryd_loc", "q0"), ("add", ("const", 100, 1.0, 0.0, 0, 0), "ryd_loc", "min-delay"), ("target", ["q1"], "ryd_loc"),
+                  ("enable_eom", "ryd_loc", 5.0, 0.0, 0.0, False), ("eom_pulse", "ryd_loc", 100, 0.0, "min-delay", False), ("disable_eom", "ryd_loc", False),
+                  ("target", ["q2"], "ryd_loc"), ("enable_eom", "ryd_loc", 5.0, 0.0, -20.0, True), ("eom_pulse", "ryd_loc", 52, 1.0, "no-delay", True), ("disable_eom", "ryd_loc", True)]
+    # a local modulated channel whose custom phase-jump time is shorter than its fall time: short delays after a pulse, then a retarget / an at-rest alignment
+    for pjt in (0, 40):
+        c = eom_cfg()
+        c["channels"]["ram_loc"].update(custom_phase_jump_time=pjt, min_retarget_interval=0)
+        yield c, [("declare", "ram_loc", "ram_loc", "q1"), ("declare", "ryd_glob", "ryd_glob", None), ("add", ("const", 100, 1.0, 0.0, 0, 0), "ram_loc", "min-delay"),
+                  ("delay", 16, "ram_loc", False), ("delay", 40, "ram_loc", False), ("target", ["q2"], "ram_loc"), ("add", ("const", 52, 1.0, 0.0, 1.0, 0), "ram_loc", "min-delay"),
+                  ("delay", 16, "ram_loc", False), ("align", ["ram_loc", "ryd_glob"], True), ("delay", 120, "ram_loc", True)]
+    # the same DMM configured twice on a device with reusable channels, with a flat and a sharp map: each is checked against its own map
+    for first, second in (({"q0": 0.25, "q1": 0.25, "q2": 0.25}, {"q0": 1.0, "q1": 0.0, "q2": 0.0}), ({"q0": 1.0, "q1": 0.0, "q2": 0.0}, {"q0": 0.25, "q1": 0.25, "q2": 0.25})):
+        c = dict(eom_cfg(), reusable=True, dmm=dict(bottom_detuning=-20.0, total_bottom_detuning=None, clock_period=4, min_duration=16, mod_bandwidth=None))
+        yield c, [("declare", "ryd_glob", "ryd_glob", None), ("dmm", first), ("dmm", second),
+                  ("add_dmm", ("detconst", 100, -30.0), "dmm_0", "no-delay"), ("add_dmm", ("detconst", 100, -30.0), "dmm_0_1", "no-delay"),
+                  ("add_dmm", ("detconst", 52, -10.0), "dmm_0_1", "min-delay"), ("add_dmm", ("detconst", 52, -10.0), "dmm_0", "min-delay")]
     c = eom_cfg()
     # phase shifts between pulses on two channels sharing an atom; a channel declared after shifts were applied
     yield c, [("declare", "ryd_glob", "ryd_glob", None), ("add", ("const", 400, 1.0, 0.0, 0, 0.5), "ryd_glob", "min-delay"),
@@ -330,6 +359,12 @@ def main(argv):
                 print("replay:", "FAILS" if msgs else "passes", msgs[:1])
                 bad += bool(msgs)
                 continue
+            if f.get("case") is not None and prop == "C13":
+                import c13p
+                msgs = c13p.replay_case(f["case"])
+                print("replay:", "FAILS" if msgs else "passes", msgs[:1])
+                bad += bool(msgs)
+                continue
             if "cfg" not in f:
                 print("replay: (function-level case; re-run the check with the same VERIF_SEED to regenerate it)", f.get("clause"))
                 bad += 1
@@ -401,6 +436,17 @@ def main(argv):
     n_hist = evals = 0
     distinct = set()
     failures, samples = [], []
+    extra_rule = ""
+    if prop == "C13":
+        # declaration / configuration typestate on plain and parametrized sequences (function-level cases)
+        import c13p
+        f13, e13, d13, s13 = c13p.run(rng, budget * 0.25, lambda m, k, d: None)
+        failures += f13
+        evals += e13
+        distinct |= {("c13p", i) for i in range(d13)}
+        samples += s13[:1]
+        budget *= 0.75
+        extra_rule = "; plus random interleavings of declare_channel / config_detuning_map / config_slm_mask / first use of a variable / inspection calls on devices with and without reusable channels (parametrized sequences included)"
     t0 = time.time()
     props = checks.PROP_GROUP.get(prop, [prop])
     scripted = list(scripted_histories(rng))
@@ -447,7 +493,7 @@ def main(argv):
                summary=dict(kind="bounded stand-in (never counted as proved)", histories=n_hist, evaluations=evals, distinct_nontrivial=len(distinct),
                             rule="random API call histories (4-20 calls after declarations) on generated VirtualDevice configurations (clock 1-8, min duration 1-20, optional "
                                  "max duration / bandwidth / EOM / DMM / max sequence duration); concrete contracts of the property evaluated after every call; "
-                                 "distinct = distinct (configuration, history) pairs; non-trivial = history has at least 4 calls after declarations",
+                                 "distinct = distinct (configuration, history) pairs; non-trivial = history has at least 4 calls after declarations" + extra_rule,
                             bound=f"{budget}s wall", samples=samples, hints_used=len(hints)))
     print(json.dumps(out, default=str))
     return 0
